@@ -266,13 +266,22 @@ def agree_task(task):
         for pb, kb, vb in B:
             pc = list(pa) + list(pb)
             if ka == 'ret' and kb == 'ret':
-                s, m = check(pc, dv_equal(va, vb))
-                o = {'kind': 'paths-disagree', 'verdict': s}
-                if m is not None:
-                    o['witness'] = model_rows(m, rows)
-                    o['array_path'], o['row_path'] = concrete_dv(m, va), concrete_dv(m, vb)
-                    if prior == 'value':
-                        o['prior'] = str(m.eval(BitVec('s0', 32 if agg in ('count', 'rowcount') else W[elem]), model_completion=True))
+                # FIRST / LAST: decided separately for a NULL and a non-NULL deciding row (the first / last row of the
+                # chunk), so that the recorded disagreement on NULL rows cannot hide one on ordinary rows
+                roles = [(None, [])]
+                if agg in ('first', 'last') and rows:
+                    dec = rows[0][1] if agg == 'first' else rows[-1][1]
+                    roles = [('paths-disagree', [Not(dec)]), ('paths-disagree-on-a-non-null-row', [dec])]
+                for ri, (kind, extra) in enumerate(roles):
+                    s, m = check(pc + extra, dv_equal(va, vb))
+                    o = {'kind': kind or 'paths-disagree', 'verdict': s}
+                    if m is not None:
+                        o['witness'] = model_rows(m, rows)
+                        o['array_path'], o['row_path'] = concrete_dv(m, va), concrete_dv(m, vb)
+                        if prior == 'value':
+                            o['prior'] = str(m.eval(BitVec('s0', 32 if agg in ('count', 'rowcount') else W[elem]), model_completion=True))
+                    if ri + 1 < len(roles):
+                        res['obligations'].append(o)
             else:
                 if ka != 'ret' and kb != 'ret':
                     continue
